@@ -646,7 +646,21 @@ def r_bad_default_value(i):
         ('length', 'zf String(max_length=2) = "abc"'), ('length', 'zf String(min_length=2) = "a"'),
         ('pattern', 'zf String(pattern="[a-z]+") = "123"'), ('pattern', 'zf String(pattern="\\\\d{3}") = "ab"'),
         ('timestamp', 'zf Timestamp("%Y-%m-%d") = "yesterday"'),
+        # LR "Defaults": only primitive fields and (void tags of) unions can have a default
+        ('non-defaultable', 'zf List(String) = 1'), ('non-defaultable', 'zf List(String) = null'),
+        ('non-defaultable', 'zf Map(String, Int32) = 1'), ('non-defaultable', 'zf List(Int32) = zt'),
+        ('non-defaultable', 'zf Map(String, String) = "x"'),
     ])
+    if i.g.p(12):
+        # a struct-typed field with a default; a union-typed field with a literal default
+        if i.g.p(50):
+            s, _ = i.a_struct()
+            i.holder('zf %s = %s' % (s, i.g.choice(['1', 'zt', '"x"', 'null', 'true'])))
+            return 'non-defaultable|struct'
+        u = i.fresh()
+        i.raw([(0, 'union %s' % u), (1, 'zt1'), (1, 'zt2 String')])
+        i.holder('zf %s = %s' % (u, i.g.choice(['1', '"zt1"', 'true', '1.5', 'null'])))
+        return 'literal-for-union'
     ctx_alias = ''
     if i.g.p(30):
         # the same through an alias of the parameterised type
@@ -739,10 +753,18 @@ def r_bad_struct_example(i):
         'list-too-long': [(2, 'za = "x"'), (2, 'zb = 3'), (2, 'zc = default'), (2, 'zd = ["a", "b", "c"]')],
         'bad-map-value': [(2, 'za = "x"'), (2, 'zb = 3'), (2, 'zc = default'), (2, 'ze = {"k": "v"}')],
         'bad-nested-list-element': [(2, 'za = "x"'), (2, 'zb = 3'), (2, 'zc = default'), (2, 'zg = [["a"], [2]]')],
+        # LR "Union" examples: a union-typed field takes a void tag's name or an example label of the union
+        'union-field-nonvoid-tag': [(2, 'za = "x"'), (2, 'zb = 3'), (2, 'zc = default'), (2, 'zu = zt2')],
+        'union-field-struct-tag': [(2, 'za = "x"'), (2, 'zb = 3'), (2, 'zc = default'), (2, 'zu = zt3')],
+        'union-field-literal': [(2, 'za = "x"'), (2, 'zb = 3'), (2, 'zc = default'), (2, 'zu = 1')],
+        'union-field-unknown-tag': [(2, 'za = "x"'), (2, 'zb = 3'), (2, 'zc = default'), (2, 'zu = znope')],
     }
     kind = i.g.choice(sorted(kinds))
+    zu = i.fresh()
+    i.raw([(0, 'union %s' % zu), (1, 'zt1'), (1, 'zt2 String'), (1, 'zt3 %s' % inner)])
     i.raw([(0, 'struct %s' % outer), (1, 'za String(max_length=3)'), (1, 'zb Int32(max_value=10)'), (1, 'zc %s' % inner),
            (1, 'zd List(String, max_items=2)?'), (1, 'ze Map(String, Int32)?'), (1, 'zg List(List(String))?'),
+           (1, 'zu %s?' % zu),
            (1, 'example default')] + kinds[kind])
     return kind
 
@@ -878,12 +900,16 @@ def r_bad_doc_reference(i):
         'route-is-type': ':route:`%s`' % s,
         'type-unknown-namespace': ':type:`zq_nowhere.T`',
         'route-unknown-namespace': ':route:`zq_nowhere.r`',
+        'field-of-alias': ':field:`%s.f`' % a,
     }
+    if i.g.p(10):
+        an = i.fresh('Zan')
+        i.raw([(0, 'annotation %s = Deprecated()' % an)])
+        refs = {'field-of-annotation': ':field:`%s.f`' % an, 'type-is-annotation': ':type:`%s`' % an,
+                'route-is-annotation': ':route:`%s`' % an}
     kind = i.g.choice(sorted(refs))
     doc = '"see %s here"' % refs[kind]
     pos = i.g.choice(['struct', 'field', 'union', 'tag', 'route'])
-    if kind in ('unknown-field',) and pos == 'route':
-        pos = 'struct'
     if pos == 'struct':
         i.raw([(0, 'struct %s' % i.fresh()), (1, doc), (1, 'zf String')])
     elif pos == 'field':
